@@ -23,7 +23,8 @@ func init() {
 			"R4 must-close: every BlobReader/BlobWriter obtained from the backend is closed on every path on which it is non-nil; " +
 			"R5 single error exit: ServeHTTP routes a non-nil handler error to WriteError, and after the first WriteHeader/Write/io.Copy/Redirect in a handler no error return is reachable; " +
 			"R6 mandated headers: every path to a success WriteHeader passes through Header().Set of the names the distribution spec mandates for that endpoint (table A.4); " +
-			"R7 status follows code: MarshalError uses an HTTPError's status only when the code table misses, and the parse-error switch covers every sentinel of ocirequest.",
+			"R7 status follows code: MarshalError uses an HTTPError's status only when the code table misses, and the parse-error switch covers every sentinel of ocirequest. " +
+			"R8 where a stored range bound is set to a limit, the guarding comparison is on the bound itself or on the bound shifted towards the limit, never shifted away from it (end-1 > size lets size+1 through).",
 		NotDecided: "Content-Length numerically equal to the body for blob bodies (supplied by the backend's descriptor), and JSON well-formedness of bodies produced by encoding/json, are not decided.",
 		Technique:  "static analysis: panic-site inventory with a difference-bound prover, disjunctive path facts, typestate (must-close), must-pass-through for headers, table exhaustiveness",
 	})
@@ -56,6 +57,7 @@ func runC06(c *core.Ctx) {
 	c06SingleErrorExit(c, "C06.R5")
 	c06Headers(c, "C06.R6", m)
 	c06StatusFollowsCode(c, "C06.R7")
+	clampTestsWhatItClamps(c, "C06.R8", "ociserver")
 }
 
 // ---------------------------------------------------------------- R1 dischargers
